@@ -12,6 +12,7 @@ package main
 import (
 	"context"
 	"fmt"
+	"math"
 	"math/rand/v2"
 	"os"
 	"path/filepath"
@@ -38,19 +39,19 @@ type modelEntry struct {
 }
 
 type caseSpec struct {
-	Index     int            `json:"index"`
-	Backend   string         `json:"backend"`
-	Entries   []zipgen.Entry `json:"entries"`
-	Recursive bool           `json:"recursive"`
-	MaxFile   int64          `json:"max_file_size"`
-	MaxTotal  uint64         `json:"max_total_size"`
-	MaxCount  int64          `json:"max_file_count"`
-	MaxDepth  int64          `json:"max_depth"`
-	Lying     string         `json:"lying,omitempty"` // "", declared-smaller, declared-larger, bad-crc
-	Decoy     string         `json:"decoy,omitempty"`
-	Nesting   int            `json:"nesting"`
-	Ambiguous bool           `json:"ambiguous"` // duplicates / decoys: judged by the disk walk only
-	Placement string         `json:"limit_placement"`
+	Index     int              `json:"index"`
+	Backend   string           `json:"backend"`
+	Entries   []zipgen.Entry   `json:"entries"`
+	Recursive bool             `json:"recursive"`
+	MaxFile   int64            `json:"max_file_size"`
+	MaxTotal  uint64           `json:"max_total_size"`
+	MaxCount  int64            `json:"max_file_count"`
+	MaxDepth  int64            `json:"max_depth"`
+	Lying     string           `json:"lying,omitempty"` // "", declared-smaller, declared-larger, bad-crc
+	Decoy     string           `json:"decoy,omitempty"`
+	Nesting   int              `json:"nesting"`
+	Ambiguous bool             `json:"ambiguous"` // duplicates / decoys: judged by the disk walk only
+	Placement string           `json:"limit_placement"`
 	True      map[string]int64 `json:"true_figures"`
 }
 
@@ -211,7 +212,14 @@ func genCase(r *vrun.Run, idx int) caseSpec {
 		if len(plain) > 0 {
 			i := plain[rng.IntN(len(plain))]
 			e := &c.Entries[i]
-			switch rng.IntN(3) {
+			switch rng.IntN(4) {
+			case 3:
+				// zip64 header declaring a size which becomes negative once converted to a signed 64-bit integer
+				e.DeclaredHuge = []uint64{1 << 63, 1<<63 + 1, 1<<64 - 1, 1<<63 + rng.Uint64()>>1}[rng.IntN(4)]
+				c.Lying = "declared-beyond-int64"
+				// highly compressible data: the archive stays small while the entry is the largest file of the case
+				e.Data = make([]byte, 100000+rng.IntN(200000))
+				e.Size = len(e.Data)
 			case 0:
 				e.Declared = int64(rng.IntN(len(e.Data)))
 				c.Lying = "declared-smaller"
@@ -256,6 +264,15 @@ func genCase(r *vrun.Run, idx int) caseSpec {
 	c.True = map[string]int64{"max_file": f, "total": t, "count": n, "max_depth": d}
 	var pl [4]string
 	c.MaxFile, pl[0] = place(rng, f)
+	if c.Lying == "declared-beyond-int64" && rng.IntN(3) != 0 {
+		// a per-file limit well below the real size of the lying entry (a copy loop hands its data over in chunks,
+		// the last of which may be dropped on error) but above the size of the archive itself
+		if b, err := zipgen.Build(c.Entries); err == nil {
+			if room := f - 70000 - int64(len(b)); room > 1 {
+				c.MaxFile, pl[0] = int64(len(b))+1+rng.Int64N(room), "between-archive-and-lying-entry"
+			}
+		}
+	}
 	var mt int64
 	mt, pl[1] = place(rng, t)
 	c.MaxTotal = uint64(mt)
@@ -390,6 +407,9 @@ func runCase(r *vrun.Run, c caseSpec, scratch string) {
 			}
 			if e.Declared >= 0 {
 				d = e.Declared
+			}
+			if e.DeclaredHuge != 0 {
+				d = math.MaxInt64
 			}
 			declared[filepath.Join(dest, filepath.FromSlash(e.Name))] = d
 		}
